@@ -26,7 +26,7 @@ type probeState struct {
 	br     *bindReport
 	pages  []httpReport
 	post   *httpReport
-	entry  map[string]interface{}
+	entries []map[string]interface{}
 	fipMut []string // FloatingIP mutations observed during the probe: verb ip key
 	omit   bool
 	want     []string
@@ -144,6 +144,12 @@ func (w *World) probeIdle() bool {
 
 // confInForce returns the newest configuration version whose IP set equals the set of IPs in the dump.
 func (w *World) confInForce(mem []memEntry) ConfSet {
+	cs, _ := w.confInForceIdx(mem)
+	return cs
+}
+
+// confInForceIdx also returns the index of the version (-1 if none matches).
+func (w *World) confInForceIdx(mem []memEntry) (ConfSet, int) {
 	// identify the version by the full mapping ip -> (node subnets, gateway, vlan): "move" and "reorder" reloads
 	// keep the IP set and change only the pools
 	sig := func(subnets []string, gw string, vlan int) string {
@@ -168,10 +174,10 @@ func (w *World) confInForce(mem []memEntry) ConfSet {
 			}
 		}
 		if same {
-			return cs
+			return cs, i
 		}
 	}
-	return nil
+	return nil, -1
 }
 
 // evalMemcheck compares the in-memory table with the persisted objects on every IP that is both in the
@@ -434,19 +440,39 @@ func c11Task(inst *Instance, tag string, size, pick int, omitAppType bool) {
 	if len(alloc) == 0 {
 		return
 	}
-	e := alloc[pick%len(alloc)]
-	post := map[string]interface{}{}
-	for _, k := range []string{"ip", "namespace", "appName", "podName", "poolName", "appType"} {
-		if v, ok := e[k]; ok {
-			post[k] = v
+	// post back 1-3 distinct listed entries in one request (an administrator releasing several IPs at once)
+	n := 1 + (pick/7)%3
+	if n > len(alloc) {
+		n = len(alloc)
+	}
+	var posts []interface{}
+	var chosen []map[string]interface{}
+	for j := 0; j < n; j++ {
+		e := alloc[(pick+j*5)%len(alloc)]
+		dup := false
+		for _, c := range chosen {
+			if c["ip"] == e["ip"] {
+				dup = true
+			}
 		}
+		if dup {
+			continue
+		}
+		chosen = append(chosen, e)
+		post := map[string]interface{}{}
+		for _, k := range []string{"ip", "namespace", "appName", "podName", "poolName", "appType"} {
+			if v, ok := e[k]; ok {
+				post[k] = v
+			}
+		}
+		if omitAppType && post["appType"] == "statefulset" {
+			delete(post, "appType") // documented: omitted means statefulset
+		}
+		posts = append(posts, post)
 	}
-	if omitAppType && post["appType"] == "statefulset" {
-		delete(post, "appType") // documented: omitted means statefulset
-	}
-	eb, _ := json.Marshal(e)
+	eb, _ := json.Marshal(chosen)
 	core.CallNow(core.Req{Op: "w.probe.entry", B: eb})
-	body, _ := json.Marshal(map[string]interface{}{"ips": []interface{}{post}})
+	body, _ := json.Marshal(map[string]interface{}{"ips": posts})
 	code, rb := doHTTP(inst, "POST", "/v1/ip", body)
 	report("w.probe.post", httpReport{Tag: tag, Method: "POST", URL: "/v1/ip", Code: code, Body: rb})
 }
@@ -508,35 +534,43 @@ func (w *World) evalC11(pr *probeState) {
 			}
 		}
 	}
-	if pr.entry == nil || pr.post == nil {
+	if len(pr.entries) == 0 || pr.post == nil {
 		return
 	}
-	ip, _ := pr.entry["ip"].(string)
-	releasable, _ := pr.entry["releasable"].(bool)
-	// the post-back never touches another owner's IP
+	listed := map[string]map[string]interface{}{}
+	for _, e := range pr.entries {
+		ip, _ := e["ip"].(string)
+		listed[ip] = e
+	}
+	// the post-back never touches an IP that was not posted
 	for _, m := range pr.fipMut {
 		parts := strings.SplitN(m, " ", 3)
-		if parts[1] != ip {
-			w.fail("C11.released-other-ip", "released-other-ip", "posting the listed entry for %s back mutated FloatingIP %s (%s)", ip, parts[1], m)
+		if listed[parts[1]] == nil {
+			w.fail("C11.released-other-ip", "released-other-ip", "posting listed entries %v back mutated FloatingIP %s (%s)", sortedKeys(listed), parts[1], m)
 			return
 		}
 	}
-	gone := w.K.Get("floatingips", "", ip) == nil
-	if releasable && !gone {
-		key := "listed-releasable-not-released"
-		if pr.omit && pr.entry["appType"] == "statefulset" {
-			key += ":appType-omitted"
+	for _, ip := range sortedKeys(listed) {
+		e := listed[ip]
+		releasable, _ := e["releasable"].(bool)
+		gone := w.K.Get("floatingips", "", ip) == nil
+		if releasable && !gone {
+			key := "listed-releasable-not-released"
+			if pr.omit && e["appType"] == "statefulset" {
+				key += ":appType-omitted"
+			}
+			if f := w.storeFip(ip); f != nil && strings.HasPrefix(f.Key, "pool__") && strings.Count(strings.SplitN(f.Key, "_dp_", 2)[0], "_") > 3 {
+				key = "pool-name-with-underscore"
+			}
+			w.fail("C11.listed-releasable-not-released", key,
+				"the list reports %v as releasable, posting it back (with %d other entries, appType omitted for statefulsets: %v) answered %d %s and did not release it",
+				e, len(listed)-1, pr.omit, pr.post.Code, pr.post.Body)
+			return
 		}
-		if f := w.storeFip(ip); f != nil && strings.HasPrefix(f.Key, "pool__") && strings.Count(strings.SplitN(f.Key, "_dp_", 2)[0], "_") > 3 {
-			key = "pool-name-with-underscore"
+		if !releasable && gone {
+			w.fail("C11.released-not-releasable", "released-not-releasable", "the list reports %v as not releasable, yet posting it back released it", e)
+			return
 		}
-		w.fail("C11.listed-releasable-not-released", key,
-			"the list reports %v as releasable, posting it back (appType omitted: %v) answered %d %s and did not release it", pr.entry, pr.omit, pr.post.Code, pr.post.Body)
-		return
-	}
-	if !releasable && gone {
-		w.fail("C11.released-not-releasable", "released-not-releasable", "the list reports %v as not releasable, yet posting it back released it", pr.entry)
-		return
 	}
 	w.S.Stat("c11.postback-checked")
 }
